@@ -26,6 +26,33 @@ pub struct Rep {
     /// for `evil` reports that carry a VALID encoding: the measurement it encodes (stub fidelity)
     #[serde(default)]
     pub twin: Option<Vec<N>>,
+    /// Byzantine client by wire rewrites of the honest report before fan-out (Poplar1)
+    #[serde(default)]
+    pub byz: Vec<ByzEdit>,
+}
+
+#[derive(Clone, Debug, Serialize, Deserialize, PartialEq)]
+#[serde(tag = "e")]
+pub enum ByzEdit {
+    /// re-program the on-path value of `level` to (beta, kappa): beta in 0 | 1 | 2 | -1 | rand;
+    /// kappa = k * beta when `consistent`, else k * beta + 1 (k = the honest authenticator)
+    Payload { level: u16, beta: String, consistent: bool },
+    /// mutate the seed / control-bit correction words (uncontrolled: may make more nodes live)
+    SeedCw { m: Mutation },
+    /// A/B share of aggregator `agg` at `level` (>= bits-1 means the leaf pair) += delta
+    CorrShare { agg: u8, level: u16, which: u8, delta: N },
+    /// IDPF key (which = 0) or correlated-randomness seed (which = 1) bytes of aggregator `agg`
+    KeyBytes { agg: u8, which: u8, m: Mutation },
+}
+
+/// What re-evaluation of a rewritten report with the real code shows for one aggregation parameter.
+#[derive(Clone, Debug)]
+pub struct ByzLabel {
+    pub ap: u32,
+    /// the reconstructed vector over the candidates is neither all-zero nor one-hot-1 with the
+    /// honest authenticator, or the correlated randomness of the queried level is inconsistent
+    pub must_reject: bool,
+    pub desc: String,
 }
 
 #[derive(Clone, Copy, Debug, Serialize, Deserialize, PartialEq, Eq)]
@@ -193,6 +220,8 @@ pub struct PassOut {
     pub results: Vec<Option<(Vec<u128>, Vec<u32>)>>,
     /// honest shard bytes of report 0 (public, inputs) for twin / fidelity comparisons
     pub shards: Vec<Option<(Vec<u8>, Vec<Vec<u8>>)>>,
+    /// per report: labels of Byzantine rewrites
+    pub byz_labels: Vec<Vec<ByzLabel>>,
 }
 
 #[derive(Clone, Debug)]
@@ -203,6 +232,20 @@ pub struct EffFault {
     /// exempt from the strict oracle (see DESIGN 2.4)
     pub exempt: bool,
     pub desc: String,
+    /// where the alteration landed (for per-job strictness decisions by the adapter)
+    pub site: Option<Site>,
+}
+
+#[derive(Clone, Debug)]
+pub struct Site {
+    pub kind: Kind,
+    pub region: &'static str,
+    /// byte range relative to the region start
+    pub rel: (usize, usize),
+    pub agg: usize,
+    pub round: u8,
+    pub len_change: bool,
+    pub at_source: bool,
 }
 
 fn apply_mutation(bytes: &mut Vec<u8>, m: &Mutation, regions: &[crate::inst::Region], modulus: u128) -> Option<(usize, usize)> {
@@ -242,9 +285,10 @@ fn apply_mutation(bytes: &mut Vec<u8>, m: &Mutation, regions: &[crate::inst::Reg
         }
         Mutation::FieldAdd { region, elem, delta } => {
             let fr: Vec<&crate::inst::Region> = regions.iter().filter(|r| r.elem > 1 && r.len >= r.elem).collect();
-            if fr.is_empty() || modulus == 0 {
+            if fr.is_empty() {
                 return None;
             }
+            let _ = modulus;
             let r = fr[*region as usize % fr.len()];
             let cnt = r.len / r.elem;
             let e = *elem as usize % cnt;
@@ -252,12 +296,35 @@ fn apply_mutation(bytes: &mut Vec<u8>, m: &Mutation, regions: &[crate::inst::Reg
             if off + r.elem > bytes.len() {
                 return None;
             }
-            let mut buf = [0u8; 16];
-            buf[..r.elem].copy_from_slice(&bytes[off..off + r.elem]);
-            let cur = u128::from_le_bytes(buf);
-            let d = delta.0 % modulus;
-            let newv = add_mod(cur % modulus, d, modulus);
-            bytes[off..off + r.elem].copy_from_slice(&newv.to_le_bytes()[..r.elem]);
+            if r.elem == 32 {
+                // Field255
+                let mut w = [0u64; 4];
+                for i in 0..4 {
+                    let mut b = [0u8; 8];
+                    b.copy_from_slice(&bytes[off + 8 * i..off + 8 * i + 8]);
+                    w[i] = u64::from_le_bytes(b);
+                }
+                let d = [delta.0 as u64 | 1, (delta.0 >> 64) as u64, 0, 0];
+                let nw = add255(w, d);
+                for i in 0..4 {
+                    bytes[off + 8 * i..off + 8 * i + 8].copy_from_slice(&nw[i].to_le_bytes());
+                }
+            } else {
+                let p = match r.elem {
+                    4 => crate::model::P32,
+                    8 => crate::model::P64,
+                    _ => crate::model::P128,
+                };
+                let mut buf = [0u8; 16];
+                buf[..r.elem].copy_from_slice(&bytes[off..off + r.elem]);
+                let cur = u128::from_le_bytes(buf);
+                let mut d = delta.0 % p;
+                if d == 0 {
+                    d = 1;
+                }
+                let newv = add_mod(cur % p, d, p);
+                bytes[off..off + r.elem].copy_from_slice(&newv.to_le_bytes()[..r.elem]);
+            }
             (off, off + r.elem)
         }
         Mutation::FieldSet { region, elem, raw } => {
@@ -299,6 +366,7 @@ pub struct World<'p, 'c, 'cc, V: SimVdaf<VK>, A: Adapter<V>, const VK: usize> {
     effective: Vec<EffFault>,
     shard_refused: Vec<Option<String>>,
     shards: Vec<Option<(Vec<u8>, Vec<Vec<u8>>)>>,
+    byz_labels: Vec<Vec<ByzLabel>>,
     n: usize,
 }
 
@@ -346,6 +414,7 @@ impl<'p, 'c, 'cc, V: SimVdaf<VK>, A: Adapter<V>, const VK: usize> World<'p, 'c, 
             effective: Vec::new(),
             shard_refused: Vec::new(),
             shards: Vec::new(),
+            byz_labels: Vec::new(),
             n,
         })
     }
@@ -427,13 +496,13 @@ impl<'p, 'c, 'cc, V: SimVdaf<VK>, A: Adapter<V>, const VK: usize> World<'p, 'c, 
                 Act::Drop => {
                     dropped = true;
                     self.ctx.fault("drop");
-                    self.effective.push(EffFault { idx: i, rep: env.rep, ap: ap_opt, exempt: false, desc: format!("drop {:?} {}->{}", env.kind, env.from, env.to) });
+                    self.effective.push(EffFault { idx: i, rep: env.rep, ap: ap_opt, exempt: false, desc: format!("drop {:?} {}->{}", env.kind, env.from, env.to), site: None });
                 }
                 Act::Dup => {
                     dup = true;
                     self.ctx.fault("duplicate");
                     if env.kind == EnvKind::VShare {
-                        self.effective.push(EffFault { idx: i, rep: env.rep, ap: ap_opt, exempt: false, desc: format!("extra verifier share from {}", env.from) });
+                        self.effective.push(EffFault { idx: i, rep: env.rep, ap: ap_opt, exempt: false, desc: format!("extra verifier share from {}", env.from), site: None });
                     }
                 }
                 Act::DupZero => {
@@ -441,7 +510,7 @@ impl<'p, 'c, 'cc, V: SimVdaf<VK>, A: Adapter<V>, const VK: usize> World<'p, 'c, 
                         dup = true;
                         dup_zero = true;
                         self.ctx.fault("extra_zero_share");
-                        self.effective.push(EffFault { idx: i, rep: env.rep, ap: ap_opt, exempt: false, desc: format!("extra all-zero verifier share attributed to {}", env.from) });
+                        self.effective.push(EffFault { idx: i, rep: env.rep, ap: ap_opt, exempt: false, desc: format!("extra all-zero verifier share attributed to {}", env.from), site: None });
                     }
                 }
                 Act::Mutate { part, m } => {
@@ -469,9 +538,12 @@ impl<'p, 'c, 'cc, V: SimVdaf<VK>, A: Adapter<V>, const VK: usize> World<'p, 'c, 
                         // joint-randomness part of the public share (ignored by design)
                         let own = env.to as usize;
                         let exempt = kind == Kind::Public && self.plan.inst.is_prio3() && s >= 32 * own && e <= 32 * own + 32 && !matches!(m, Mutation::Trunc { .. } | Mutation::Extend { .. });
-                        let rname = regions.iter().find(|r| s >= r.off && s < r.off + r.len).map(|r| r.name).unwrap_or("?");
+                        let reg = regions.iter().find(|r| s >= r.off && s < r.off + r.len);
+                        let rname = reg.map(|r| r.name).unwrap_or("?");
+                        let roff = reg.map(|r| r.off).unwrap_or(0);
                         self.ctx.counters.inc(&format!("alter.{:?}.{}", kind, rname));
-                        self.effective.push(EffFault { idx: i, rep: env.rep, ap: ap_opt, exempt, desc: format!("{:?} of {:?}[{}..{}] ({}) on link {}->{}", m, kind, s, e, rname, env.from, env.to) });
+                        let site = Site { kind, region: rname, rel: (s - roff, e - roff), agg, round: env.round, len_change: matches!(m, Mutation::Trunc { .. } | Mutation::Extend { .. }), at_source: false };
+                        self.effective.push(EffFault { idx: i, rep: env.rep, ap: ap_opt, exempt, desc: format!("{:?} of {:?}[{}..{}] ({}) on link {}->{}", m, kind, s, e, rname, env.from, env.to), site: Some(site) });
                     } else {
                         self.ctx.counters.inc("fault.noop");
                     }
@@ -482,7 +554,7 @@ impl<'p, 'c, 'cc, V: SimVdaf<VK>, A: Adapter<V>, const VK: usize> World<'p, 'c, 
                         if src.parts != env.parts {
                             env.parts = src.parts;
                             self.ctx.fault("splice");
-                            self.effective.push(EffFault { idx: i, rep: env.rep, ap: ap_opt, exempt: false, desc: format!("payload of report {rep2} spliced into {:?} {}->{}", env.kind, env.from, env.to) });
+                            self.effective.push(EffFault { idx: i, rep: env.rep, ap: ap_opt, exempt: false, desc: format!("payload of report {rep2} spliced into {:?} {}->{}", env.kind, env.from, env.to), site: None });
                         }
                     } else {
                         self.ctx.counters.inc("fault.noop");
@@ -518,8 +590,19 @@ impl<'p, 'c, 'cc, V: SimVdaf<VK>, A: Adapter<V>, const VK: usize> World<'p, 'c, 
             let r = self.ad.shard(self.vdaf, &self.plan.ctx.0, &rep.meas, &nonce, &rep.rand.0, rep.evil);
             self.ctx.trace.str("shard").u64(ri as u64);
             match r {
-                Ok((mut public, inputs)) => {
+                Ok((mut public, mut inputs)) => {
                     self.shards.push(Some((public.clone(), inputs.clone())));
+                    if !rep.byz.is_empty() {
+                        let labels = self.ad.byz_rewrite(self.vdaf, &self.plan.ctx.0, &nonce, &rep.meas, &mut public, &mut inputs, &rep.byz, &self.plan.aps);
+                        self.ctx.fault("byzantine_client_rewrite");
+                        for l in &labels {
+                            self.ctx.counters.inc(if l.must_reject { "byz.label_must_reject" } else { "byz.label_acceptable" });
+                        }
+                        while self.byz_labels.len() < ri {
+                            self.byz_labels.push(Vec::new());
+                        }
+                        self.byz_labels.push(labels);
+                    }
                     self.shard_refused.push(None);
                     self.ctx.trace.bytes(&public);
                     // at-source alterations of the public share
@@ -527,10 +610,12 @@ impl<'p, 'c, 'cc, V: SimVdaf<VK>, A: Adapter<V>, const VK: usize> World<'p, 'c, 
                         if f.kind == EnvKind::Upload && f.at_source && f.rep == ri as u32 && !self.fault_used[i] {
                             if let Act::Mutate { m, .. } = &f.act {
                                 self.fault_used[i] = true;
-                                let regions = self.ad.layout(Kind::Public, 0, 0, &Vec::new());
+                                let regions = self.ad.layout(Kind::Public, 0, 0, &self.plan.aps.first().cloned().unwrap_or_default());
                                 if let Some((s, e)) = apply_mutation(&mut public, m, &regions, 0) {
                                     self.ctx.fault("corrupt.at_source");
-                                    self.effective.push(EffFault { idx: i, rep: ri as u32, ap: None, exempt: false, desc: format!("{:?} of public share [{s}..{e}] at source", m) });
+                                    let reg = regions.iter().find(|r| s >= r.off && s < r.off + r.len);
+                                    let site = Site { kind: Kind::Public, region: reg.map(|r| r.name).unwrap_or("?"), rel: (s - reg.map(|r| r.off).unwrap_or(0), e - reg.map(|r| r.off).unwrap_or(0)), agg: 0, round: 0, len_change: matches!(m, Mutation::Trunc { .. } | Mutation::Extend { .. }), at_source: true };
+                                    self.effective.push(EffFault { idx: i, rep: ri as u32, ap: None, exempt: false, desc: format!("{:?} of public share [{s}..{e}] at source", m), site: Some(site) });
                                 } else {
                                     self.ctx.counters.inc("fault.noop");
                                 }
@@ -939,7 +1024,7 @@ impl<'p, 'c, 'cc, V: SimVdaf<VK>, A: Adapter<V>, const VK: usize> World<'p, 'c, 
             }
         }
         let results = if self.ctx.failed() { Vec::new() } else { self.aggregate(&jobs) };
-        PassOut { jobs, shard_refused: self.shard_refused, effective: self.effective, steps: step, results, shards: self.shards }
+        PassOut { jobs, shard_refused: self.shard_refused, effective: self.effective, steps: step, results, shards: self.shards, byz_labels: self.byz_labels }
     }
 
     /// Aggregation epilogue: per aggregator a scheduled partition / order / merge tree, compared
@@ -1211,7 +1296,7 @@ pub fn sum_outputs(outs: &[Vec<u8>], fs: usize, p: u128) -> Option<Vec<u128>> {
     Some(sum)
 }
 
-fn add255(a: [u64; 4], b: [u64; 4]) -> [u64; 4] {
+pub fn add255(a: [u64; 4], b: [u64; 4]) -> [u64; 4] {
     // (a + b) mod (2^255 - 19), inputs < p
     const P: [u64; 4] = [0xffff_ffff_ffff_ffed, 0xffff_ffff_ffff_ffff, 0xffff_ffff_ffff_ffff, 0x7fff_ffff_ffff_ffff];
     let mut r = [0u64; 4];
